@@ -627,7 +627,7 @@ def history_checks(ctx, rng):
             return float(pot.potentialOneLoopThermal(bos, fer, T))
     pot = make_pot(None, EImaginaryOption.PRINCIPAL_PART)
     mb2, mf2 = 50.0 ** 2, 170.0 ** 2
-    temps = [8.0 * 1.012 ** k for k in range(ctx.n(330, 700))]     # x from ~450 down to ~0.1
+    temps = [8.0 * 1.0065 ** k for k in range(ctx.n(620, 1300))]    # x = m^2/T^2 from ~450 down
     first = one(pot, temps[0], mb2, mf2)
     for T in temps[1:]:
         one(pot, T, mb2, mf2)
@@ -831,28 +831,46 @@ def direct(ctx, rng, D):
                            dict(kind="sb_table", dofb=dofb, doff=doff, T=T, got=gott,
                                 want=want),
                            key="stefan-boltzmann-table")
-    # generic spectra: V = T^4/(2 pi^2) sum n Re J(m^2/T^2) with J from the independent quadrature
-    for _ in range(ctx.n(5, 40)):
+    # generic spectra under every imaginary-part option: V = T^4/(2 pi^2) sum n Re J(m^2/T^2) with
+    # J from the independent quadrature; ABS_ARGUMENT means J(|m^2|/T^2), ABS_RESULT |V| when a
+    # mass is negative, ERROR must raise exactly then
+    pots = {o: make_pot(Integrals(), getattr(EImaginaryOption, o))
+            for o in ("ERROR", "ABS_ARGUMENT", "ABS_RESULT", "PRINCIPAL_PART")}
+    for it in range(ctx.n(12, 80)):
+        opt = ["PRINCIPAL_PART", "ABS_ARGUMENT", "ABS_RESULT", "ERROR"][it % 4]
         T = rng.uniform(0.5, 300.0)
         kb, kf = rng.randint(1, 5), rng.randint(1, 3)
         xb = [rng.choice([0.0, rng.uniform(0, 60.0), rng.uniform(-9.0, 0.0)]) for _ in range(kb)]
-        xf = [rng.choice([0.0, rng.uniform(0, 60.0)]) for _ in range(kf)]
+        xf = [rng.choice([0.0, rng.uniform(0, 60.0), rng.uniform(0, 60.0), rng.uniform(-9.0, 0.0)])
+              for _ in range(kf)]
         dofb = [float(rng.randint(1, 12)) for _ in range(kb)]
         doff = [float(rng.randint(1, 40)) for _ in range(kf)]
         bos = (np.array(xb) * T * T, np.array(dofb), np.full(kb, 1.5), np.full(kb, 100.0))
         fer = (np.array(xf) * T * T, np.array(doff), np.full(kf, 1.5), np.full(kf, 100.0))
+        neg = any(x < 0 for x in xb + xf)
+        tr = (lambda x: abs(x)) if opt == "ABS_ARGUMENT" else (lambda x: x)
         want = T ** 4 / (2 * math.pi ** 2) * (
-            sum(n * ref_J("b", x)[0] for n, x in zip(dofb, xb)) +
-            sum(n * ref_J("f", x)[0] for n, x in zip(doff, xf)))
-        got = float(direct_pot.potentialOneLoopThermal(bos, fer, T))
-        ctx.count("thermal_sum_direct", dict(xb=xb, xf=xf, T=T),
-                  bucket="%d bosons %d fermions" % (kb, kf))
+            sum(n * ref_J("b", tr(x))[0] for n, x in zip(dofb, xb)) +
+            sum(n * ref_J("f", tr(x))[0] for n, x in zip(doff, xf)))
+        if opt == "ABS_RESULT" and neg:
+            want = abs(want)
+        if opt == "ERROR" and neg:
+            want = None
+        try:
+            with warnings.catch_warnings():
+                warnings.simplefilter("ignore")
+                got = float(pots[opt].potentialOneLoopThermal(bos, fer, T))
+        except ValueError:
+            got = None
+        ctx.count("thermal_sum_direct", dict(xb=xb, xf=xf, T=T, opt=opt),
+                  bucket="%s/%s" % (opt, "neg" if neg else "nonneg"))
         scale = T ** 4 / (2 * math.pi ** 2) * (sum(dofb) + sum(doff))
-        if abs(got - want) > 1e-7 * scale:
-            ctx.fail_input("V_T for m^2/T^2 = %r (bosons, dof %r), %r (fermions, dof %r), T = %r: "
-                           "%r, expected %r" % (xb, dofb, xf, doff, T, got, want),
-                           dict(kind="sum", xb=xb, xf=xf, dofb=dofb, doff=doff, T=T, got=got,
-                                want=want), key="thermal-sum")
+        if (got is None) != (want is None) or \
+                (got is not None and abs(got - want) > 1e-7 * scale):
+            ctx.fail_input("V_T (%s) for m^2/T^2 = %r (bosons, dof %r), %r (fermions, dof %r), "
+                           "T = %r: %r, expected %r" % (opt, xb, dofb, xf, doff, T, got, want),
+                           dict(kind="sum", opt=opt, xb=xb, xf=xf, dofb=dofb, doff=doff, T=T,
+                                got=got, want=want), key="thermal-sum:" + opt)
     # heavy masses: |J(x)| <= 1.3 sqrt(pi/2) x^{3/4} e^{-sqrt x} (leading asymptotics) for x >= 50
     for pot, label, xmax in ((direct_pot, "direct", 3000.0), (table_pot, "tables", 999.0)):
         for _ in range(ctx.n(10, 80)):
